@@ -6,7 +6,7 @@ and the canonical signed group of circuit|0..0> must equal the canonical signed 
 """
 import random
 
-from ..core import Partial, call, exc_name, Retained
+from ..core import Partial, call, exc_name, Retained, h64
 from ..oracle import conn as oconn, groups, lcorbit
 from ..oracle.pauli import gates_of, state_of, UnknownGate, to_str
 from ..oracle.circ import fmt as fmt_gates
@@ -103,15 +103,39 @@ def retention_verdicts(p, retain, api):
     retain.clear()
 
 
+def sign_variants(case, k=2):
+    """The same Pauli operators with other sign patterns (requested right after the case itself)."""
+    n = case["n"]
+    seed = h64((case["conn"], tuple(case["gens"])))
+    rnd = random.Random(seed)
+    out = []
+    for _ in range(k):
+        pat = [rnd.getrandbits(1) for _ in range(n)]
+        g2 = [(x, z, s ^ b) for (x, z, s), b in zip(case["gens"], pat)]
+        if g2 != case["gens"]:
+            out.append(dict(case, gens=g2, circuit=None, graph_state=False, fmt=case["fmt"] if case["fmt"] in ("str+", "str", "mat3") else "str+",
+                            stratum=case["stratum"] + "-signvariant"))
+    return out
+
+
 def work(task):
     p = Partial()
     retain = Retained(digest_circuit, 600)
-    for case in wp.iter_cases(task):
+    cases = wp.iter_cases(task)
+
+    def with_variants():
+        for c in cases:
+            yield c
+            if h64((c["conn"], tuple(c["gens"]))) % 8 == 0:
+                for v in sign_variants(c):
+                    yield v
+                yield c                             # and the original request once more
+    for case in with_variants():
         p.evals += 1
         vs, gates = check_case(case, retain=retain)
         p.counters["conf %d-%s" % (case["n"], case["conn"])] += 1
         p.counters["fmt " + case["fmt"]] += 1
-        p.counters["stratum " + case["stratum"]] += 1
+        p.counters["stratum " + case["stratum"].replace("-signvariant", " (sign variants of the same operators)")] += 1
         p.extra.setdefault("labels", set()).add((case["n"], case["conn"], case["label"]))
         if isinstance(gates, tuple):
             p.counters["unknown-gate cases"] += 1
